@@ -15,7 +15,8 @@ Monitors
   victim-cancelled     the victim task ends cancelled (not: returns, not: another exception)
   children-cancelled   children still blocked when the request arrived end cancelled; every child is done at quiescence
   terminates           the loop does not go quiescent with the victim pending
-  check-cancellation   ctx.check_cancellation() raises CancelledError iff the current task has been asked to cancel
+  check-cancellation   every ctx.cancel() / Task.cancel() request is delivered at the next suspension point (also a repeated one after
+                       an earlier cancellation was caught); ctx.check_cancellation() raises CancelledError iff the current task has been asked to cancel
                        (ctx.cancel(), Task.cancel() on itself / from another task, observed before and after the
                        cancellation is caught, with and without uncancel(), inside scopes of depth 0-3)
 """
@@ -246,6 +247,7 @@ def check_cancellation_probes(R: Recorder) -> None:
     from haiway import ctx
 
     results: list[tuple[str, int, bool, bool, str]] = []  # (state, depth, expected_raise, did_raise, extra)
+    delivered: list[tuple[str, int, bool]] = []  # (what, depth, a CancelledError arrived at the next suspension point)
 
     def probe(state: str, depth: int, expect: bool) -> None:
         try:
@@ -300,6 +302,35 @@ def check_cancellation_probes(R: Recorder) -> None:
 
             await asyncio.gather(loop.create_task(nested(depth, task_cancel)), return_exceptions=True)
 
+            # every request made through the context is delivered at the next suspension point - also a second one made after
+            # an earlier cancellation was caught (with or without uncancel())
+            async def repeated(depth: int = depth) -> None:
+                t = asyncio.current_task()
+                assert t is not None
+                for first, uncancel in (("ctx", False), ("task", False), ("ctx", True), ("task", True)):
+                    if first == "ctx":
+                        ctx.cancel()
+                    else:
+                        t.cancel()
+                    try:
+                        await asyncio.sleep(0)
+                        delivered.append((f"first-{first}", depth, False))
+                    except asyncio.CancelledError:
+                        delivered.append((f"first-{first}", depth, True))
+                    if uncancel:
+                        while t.cancelling():
+                            t.uncancel()
+                    ctx.cancel()
+                    try:
+                        await asyncio.sleep(0)
+                        delivered.append((f"second-ctx.cancel-after-caught-{first}{'-uncancelled' if uncancel else ''}", depth, False))
+                    except asyncio.CancelledError:
+                        delivered.append((f"second-ctx.cancel-after-caught-{first}{'-uncancelled' if uncancel else ''}", depth, True))
+                    while t.cancelling():
+                        t.uncancel()
+
+            await asyncio.gather(loop.create_task(nested(depth, repeated)), return_exceptions=True)
+
             # cancelled from another task while suspended; the sibling is not cancelled
             ev = asyncio.Event()
 
@@ -339,6 +370,9 @@ def check_cancellation_probes(R: Recorder) -> None:
     del old
     if status != "ok":
         R.monitor("check-cancellation", False, where={"kind": "probe-run-failed"}, detail=f"{status}: {value!r}", case={"check": "all"})
+    for what, depth, ok in delivered:
+        R.case({"check": what, "depth": depth}, nontrivial=True)
+        R.monitor("check-cancellation", ok, where={"kind": "request-not-delivered", "state": what}, detail=f"{what} at scope depth {depth}: no CancelledError at the next suspension point", case={"check": what, "depth": depth})
     for state, depth, expect, did, extra in results:
         R.case({"check": state, "depth": depth}, nontrivial=False)
         R.monitor("check-cancellation", expect == did and not extra, where={"kind": "did-not-raise" if expect and not did else ("raised-spuriously" if did and not expect else "wrong-exception"), "state": state},
